@@ -10,6 +10,7 @@ import (
 	"go/types"
 	"os"
 	"path/filepath"
+	"regexp"
 	"sort"
 	"strings"
 )
@@ -402,6 +403,8 @@ func (p *Prog) FrameObligations(prop string) []*Obligation {
 		return p.c08Obligations()
 	case "C13":
 		return p.c13Obligations()
+	case "C07":
+		return p.c07Obligations()
 	case "C10", "C09":
 		tags := []string{prop}
 		var entries []string
@@ -906,4 +909,249 @@ func (p *Prog) c13Obligations() []*Obligation {
 		}
 	}
 	return obls
+}
+
+// ---- C07: hygiene of the names the translator invents ----------------------------------------------------------------
+
+func (p *Prog) stringLits(fi *FuncInfo) []string {
+	var out []string
+	info := fi.Pkg.TypesInfo
+	ast.Inspect(fi.Body(), func(nd ast.Node) bool {
+		if bl, ok := nd.(*ast.BasicLit); ok && bl.Kind == token.STRING {
+			if tv, ok := info.Types[bl]; ok && tv.Value != nil {
+				out = append(out, strings.Trim(tv.Value.ExactString(), `"`))
+				if s, err := strconvUnquote(bl.Value); err == nil {
+					out[len(out)-1] = s
+				}
+			}
+		}
+		return true
+	})
+	return out
+}
+
+func strconvUnquote(s string) (string, error) {
+	if len(s) >= 2 && s[0] == '`' {
+		return s[1 : len(s)-1], nil
+	}
+	var out []byte
+	// minimal Go string unquote for "..." literals
+	if len(s) < 2 || s[0] != '"' {
+		return "", fmt.Errorf("not a string literal")
+	}
+	body := s[1 : len(s)-1]
+	for i := 0; i < len(body); i++ {
+		if body[i] == '\\' && i+1 < len(body) {
+			i++
+			switch body[i] {
+			case 'n':
+				out = append(out, '\n')
+			case 't':
+				out = append(out, '\t')
+			case '"':
+				out = append(out, '"')
+			case '\\':
+				out = append(out, '\\')
+			default:
+				out = append(out, '\\', body[i])
+			}
+			continue
+		}
+		out = append(out, body[i])
+	}
+	return string(out), nil
+}
+
+var reBind = []string{
+	`(?:^|[\s;|{\[(])([A-Za-z_][A-Za-z0-9_]*)\s*:?=[^=]`, // x = ... / x := ...
+	`[\[{]\s*([A-Za-z_][A-Za-z0-9_]*)\s*\|`,              // [ x | ...   { x | ...
+}
+
+func (p *Prog) c07Obligations() []*Obligation {
+	tags := []string{"C07"}
+	var obls []*Obligation
+	// keywords of the linked engine + future keywords imported by the preamble
+	kw := map[string]bool{}
+	if pk := p.AllPkgs["github.com/open-policy-agent/opa/ast/internal/tokens"]; pk != nil {
+		for _, f := range pk.Syntax {
+			for _, d := range f.Decls {
+				gd, ok := d.(*ast.GenDecl)
+				if !ok || gd.Tok != token.VAR {
+					continue
+				}
+				for _, sp := range gd.Specs {
+					vs := sp.(*ast.ValueSpec)
+					for i, n := range vs.Names {
+						if n.Name == "keywords" && i < len(vs.Values) {
+							if cl, ok := vs.Values[i].(*ast.CompositeLit); ok {
+								for _, el := range cl.Elts {
+									if kv, ok := el.(*ast.KeyValueExpr); ok {
+										if tv, ok := pk.TypesInfo.Types[kv.Key]; ok && tv.Value != nil {
+											kw[strings.Trim(tv.Value.ExactString(), `"`)] = true
+										}
+									}
+								}
+							}
+						}
+					}
+				}
+			}
+		}
+	}
+	nBase := len(kw)
+	gpk := p.AllPkgs[repoMod+"/internal/generator"]
+	if gpk != nil {
+		if c, ok := gpk.Types.Scope().Lookup("preambleRaw").(*types.Const); ok {
+			txt := c.Val().ExactString()
+			for _, l := range strings.Split(strings.ReplaceAll(txt, `\n`, "\n"), "\n") {
+				l = strings.TrimSpace(l)
+				if strings.HasPrefix(l, "import future.keywords.") {
+					kw[strings.TrimPrefix(l, "import future.keywords.")] = true
+				}
+			}
+		}
+	}
+	obls = append(obls, analysisObl("hyg:keywords#read-from-engine", "hyg", tags, nBase >= 5, "the keyword table of the linked engine could be read from its source", "", fmt.Sprintf("%d keywords found", nBase), "profile.NewVarGenerator"))
+	// names
+	var names []string
+	if fi := p.Funcs["profile.NewVarGenerator"]; fi != nil {
+		info := fi.Pkg.TypesInfo
+		ast.Inspect(fi.Body(), func(nd ast.Node) bool {
+			if cl, ok := nd.(*ast.CompositeLit); ok && len(names) == 0 {
+				if _, isSlice := info.TypeOf(cl).Underlying().(*types.Slice); isSlice {
+					for _, el := range cl.Elts {
+						if tv, ok := info.Types[el]; ok && tv.Value != nil {
+							names = append(names, strings.Trim(tv.Value.ExactString(), `"`))
+						}
+					}
+				}
+			}
+			return true
+		})
+	}
+	fallback := ""
+	if fi := p.Funcs["profile.VarGenerator.GenExpressionVar"]; fi != nil {
+		for _, l := range p.stringLits(fi) {
+			if strings.Contains(l, "%d") {
+				fallback = l
+			}
+		}
+	}
+	// template locals: identifiers the generator's own format strings bind inside rule bodies
+	locals := map[string]string{}
+	for _, n := range p.Order {
+		fi := p.Funcs[n]
+		if fi.Pkg.Types.Name() != "generator" {
+			continue
+		}
+		for _, lit := range p.stringLits(fi) {
+			for _, re := range reBind {
+				for _, m := range regexpFindAll(re, lit) {
+					if strings.Contains(m, "%") {
+						continue
+					}
+					if _, ok := locals[m]; !ok {
+						locals[m] = n
+					}
+				}
+			}
+		}
+	}
+	check := func(id, text string, cands []string, forbidden func(string) (bool, string)) {
+		var bad []string
+		for _, c := range cands {
+			if hit, why := forbidden(c); hit {
+				bad = append(bad, fmt.Sprintf("%q %s", c, why))
+			}
+		}
+		obls = append(obls, analysisObl("hyg:profile.NewVarGenerator#"+id, "hyg", tags, len(bad) == 0 && len(names) > 0, text, "internal/parser/profile/vargenerator.go", strings.Join(bad, "\n"), "profile.NewVarGenerator"))
+	}
+	var plurals []string
+	for _, n := range names {
+		plurals = append(plurals, n+"s")
+	}
+	isKw := func(s string) (bool, string) { return kw[s], "is a keyword of the policy language" }
+	isLocal := func(s string) (bool, string) {
+		f, ok := locals[s]
+		return ok, "is bound by a template of " + f
+	}
+	check("names-not-keywords", "no quantified-variable name is a keyword", names, isKw)
+	check("plurals-not-keywords", "no plural (<name>s, the node-set variable of a nested constraint) is a keyword", plurals, isKw)
+	check("names-not-template-locals", "no quantified-variable name is bound by the generator's own templates", names, isLocal)
+	check("plurals-not-template-locals", "no plural is bound by the generator's own templates", plurals, isLocal)
+	seen := map[string]int{}
+	for _, n := range append(append([]string{}, names...), plurals...) {
+		seen[n]++
+	}
+	var dups []string
+	for n, c := range seen {
+		if c > 1 {
+			dups = append(dups, n)
+		}
+	}
+	sort.Strings(dups)
+	obls = append(obls, analysisObl("hyg:profile.NewVarGenerator#names-and-plurals-distinct", "hyg", tags, len(dups) == 0 && len(names) > 0, "names and plurals are pairwise distinct", "", strings.Join(dups, ","), "profile.NewVarGenerator"))
+	// fallback names X<k>: nothing else has that shape
+	okFb := strings.HasSuffix(fallback, "%d") && len(fallback) > 2
+	prefix := strings.TrimSuffix(fallback, "%d")
+	var clash []string
+	shape := func(s string) bool {
+		if !strings.HasPrefix(s, prefix) || prefix == "" {
+			return false
+		}
+		rest := strings.TrimSuffix(strings.TrimPrefix(s, prefix), "s")
+		if rest == "" {
+			return false
+		}
+		for _, r := range rest {
+			if r < '0' || r > '9' {
+				return false
+			}
+		}
+		return true
+	}
+	for k := range kw {
+		if shape(k) {
+			clash = append(clash, k)
+		}
+	}
+	for l := range locals {
+		if shape(l) {
+			clash = append(clash, l)
+		}
+	}
+	for _, n := range append(append([]string{}, names...), plurals...) {
+		if shape(n) {
+			clash = append(clash, n)
+		}
+	}
+	obls = append(obls, analysisObl("hyg:profile.VarGenerator.GenExpressionVar#fallback-names", "hyg", tags, okFb && len(clash) == 0, "beyond the literal list names are <prefix><k>: injective in k, and no keyword, template local or listed name (or plural) has that shape", "", fmt.Sprintf("format %q clashes %v", fallback, clash), "profile.VarGenerator.GenExpressionVar"))
+	// derived names <v>_..., <v>s_..., gen_..., _result_<i>, msg_var_<i>
+	var derivedClash []string
+	for l, f := range locals {
+		for _, n := range append(append([]string{}, names...), plurals...) {
+			if strings.HasPrefix(l, n+"_") {
+				derivedClash = append(derivedClash, fmt.Sprintf("template local %s (in %s) could equal a name derived from variable %s", l, f, n))
+			}
+		}
+		if strings.HasPrefix(l, "gen_") {
+			derivedClash = append(derivedClash, "template local "+l+" has the gen_ prefix of Genvar names")
+		}
+	}
+	for _, n := range append(append([]string{}, names...), plurals...) {
+		if strings.HasPrefix(n, "gen_") || strings.HasPrefix(n, "_result_") || strings.HasPrefix(n, "msg_var_") {
+			derivedClash = append(derivedClash, "variable name "+n+" has a reserved generated prefix")
+		}
+	}
+	sort.Strings(derivedClash)
+	obls = append(obls, analysisObl("hyg:generator#derived-names", "hyg", tags, len(derivedClash) == 0, "names derived from variables (<v>_errorAcc, <v>s_br_<i>, ...) and the gen_/_result_/msg_var_ families cannot collide with template locals or variable names", "", strings.Join(derivedClash, "\n"), "generator.wrapNestedRegoResult"))
+	return obls
+}
+
+func regexpFindAll(re, s string) []string {
+	var out []string
+	for _, m := range regexp.MustCompile(re).FindAllStringSubmatch(s, -1) {
+		out = append(out, m[1])
+	}
+	return out
 }
